@@ -156,7 +156,8 @@ def run(run: Run) -> None:
     text = spec.to_fan()
     prewarm(text)
     run.event("spec", text)
-    seed = ch.draw(10_000, "work", "random-seed")  # 0 is a seed like any other
+    # 0 is a seed like any other (and a popular one)
+    seed = 0 if ch.coin(0.12, "work", "seed-zero") else ch.draw(10_000, "work", "random-seed")
     n_sol = ch.rng_range(2, 8, "work", "n-sol")
     gens = ch.pick([4, 2, 8], "work", "gens")
     settings = dict(population_size=ch.pick([8, 3, 20], "cfg", "population"), max_nodes=ch.pick([40, 20, 80], "cfg", "max_nodes"), mutation_rate=ch.pick([0.2, 0.8], "cfg", "mut"), crossover_rate=ch.pick([0.8, 0.3], "cfg", "cx"), destruction_rate=ch.pick([0.0, 0.3], "cfg", "destr"))
